@@ -46,7 +46,7 @@ def gen_run(rng, k):
         c["moves"] = moves
         c["plus"] = rng.random() < 0.5 and all(m["mult"] == 1 for m in moves[:2])
     elif drv == "hamiltonian":
-        c["moves"] = [{"kind": "hamiltonian", "dt": rng.choice([0.5, 1.0, 3.0]), "n": rng.choice([1, 4, 10])}]
+        c["moves"] = [{"kind": "hamiltonian", "dt": rng.choice([0.5, 1.0, 3.0]), "n": rng.choice([1, 4, 10]), "default_built": random.Random(c["seed"] ^ 0x8).random() < 0.5}]
     if drv in ("canonical", "hamiltonian") and random.Random(c["seed"] ^ 0x2B).random() < 0.4:
         c["user_shift"] = [0.375, -0.25, 0.125]      # the same driver is run twice and the user moves the whole system in between
     if drv in ("canonical", "hamiltonian"):
